@@ -25,8 +25,17 @@ static void viol(const char *what, const char *fmt, ...)
 	xp_violation(sig, "%s", detail);
 }
 
-/* Sanitizer reports are not this property's oracle (C05/C06 own them); they are counted as a note. */
-static void on_san(const char *sig) { if (getenv("VERIF_VERBOSE")) dprintf(2, "sanitizer note: %s\n", sig); xp_count(3, 1); }
+/* A sanitizer report inside the login computation or the +1/-1 arithmetic means the response is not defined by the
+ * language for that challenge ("for all 2^32 challenges"); reports elsewhere are counted as a note (C05/C06 own them). */
+static void on_san(const char *sig)
+{
+	if (getenv("VERIF_VERBOSE")) dprintf(2, "sanitizer note: %s\n", sig);
+	xp_count(3, 1);
+	if (strstr(sig, "signed-integer-overflow") || strstr(sig, "login.c") || strstr(sig, "md5.c")) {
+		char what[160]; snprintf(what, sizeof what, "undefined-arithmetic-on-challenge:%s", sig);
+		viol(what, "the sanitizer reports %s while a login response is computed for a wrap-around challenge", sig);
+	}
+}
 
 static uint32_t CH[128]; static int nch;
 static void mk_challenges(void)
@@ -293,8 +302,8 @@ static void run_env(uint32_t seed, const int *lenv, int nl, const int *renv, int
 
 static void job_raw_client_env(void)
 {
-	uint32_t seeds[] = { 0xffffffffu, 0x12345678u, 0, 0x80000000u, 0x7fffffffu, 1 };
-	int ns = thorough ? 6 : 2;
+	uint32_t seeds[] = { 0x80000000u, 0x7fffffffu, 0xffffffffu, 0x12345678u, 0, 1 };
+	int ns = thorough ? 6 : 3;
 	long runs = 0;
 	for (int k = 0; k < ns; k++) {
 		/* raw phase: every sequence of 0..4 non-answers */
